@@ -341,7 +341,46 @@ def thread_cases(_=None):
     if any(isinstance(e.new_value, tuple) and e.new_value[:1] == ('hidden',)
            for e in c.__argument_history__.get('k', [])):
       bad(f'thread {i}: an edit made under suspend_tracking() was logged', 'concurrent-editors')
-  return 2, 2, viols, [dict(scenario='threads: suspension is per thread; concurrent editors')]
+  # (3) the same with the interpreter switching threads as often as it can, and every kind of edit
+  import sys
+  old_interval = sys.getswitchinterval()
+  sys.setswitchinterval(1e-6)
+  try:
+    for round_ in range(3):
+      cfgs = [fresh() for _ in range(8)]
+      start = threading.Barrier(len(cfgs))
+      def editor2(c, i):
+        start.wait(10)
+        for j in range(150):
+          c.c = (i, j)
+          if j % 5 == 0:
+            fdl.add_tag(c, 'k', pool.TagA)
+            fdl.remove_tag(c, 'k', pool.TagA)
+          if j % 11 == 0:
+            del c.c
+            fdl.assign(c, c=(i, j), k=j)
+      ts = [threading.Thread(target=editor2, args=(c, i)) for i, c in enumerate(cfgs)]
+      for t_ in ts:
+        t_.start()
+      for t_ in ts:
+        t_.join()
+      owner = {}
+      for i, c in enumerate(cfgs):
+        for sid in all_seq(c):
+          if sid in owner:
+            bad(f'round {round_}: with 8 threads editing 8 distinct configurations, sequence number {sid} was '
+                f'handed out twice (configurations {owner[sid]} and {i})', 'concurrent-editors-fast-switching')
+            break
+          owner[sid] = i
+        ids = [e.sequence_id for e in c.__argument_history__.get('c', [])]
+        if any(a >= b_ for a, b_ in zip(ids, ids[1:])):
+          bad(f'round {round_}, thread {i}: sequence ids not increasing in program order',
+              'concurrent-editors-fast-switching')
+      if viols:
+        break
+  finally:
+    sys.setswitchinterval(old_interval)
+  return 3, 3, viols, [dict(scenario='threads: suspension is per thread; concurrent editors')]
 
 
 def replay(case):
